@@ -548,20 +548,20 @@ Lemma kstep_account : forall c s o, wf s ->
   let s' := fst (kstep c s o) in let r := snd (kstep c s o) in
   (linked c o r + length s = length s' + ko_disp r + returned c o r)%nat.
 Proof.
-  intros c s o Hwf Hd Hm. unfold returned, d_gc, d_clear.
+  intros c s o Hwf Hd Hm. unfold returned.
   assert (L : forall k, mfind k s <> None -> S (length (mdel k s)) = length s) by (intros; now apply length_mdel).
-  destruct o; simpl; unfold mhas, d_gc, d_clear;
-    try (destruct (mfind k s) eqn:E; [assert (E' := L k ltac:(congruence))|]; simpl);
-    try (destruct allow; simpl);
-    try (destruct (kc_disp c) eqn:D; try congruence; try (rewrite (Hm eq_refl)); try destruct (kc_replace c); simpl; lia).
-  - (* xmin *) destruct (kmin s) as [[k v]|] eqn:E; simpl.
-    + destruct (kmin_some _ _ _ E) as [F _]. assert (E' := L k ltac:(congruence)).
-      destruct (kc_disp c) eqn:D; try congruence; simpl; lia.
-    + destruct (kc_disp c); simpl; lia.
-  - (* xmax *) destruct (kmax s) as [[k v]|] eqn:E; simpl.
-    + destruct (kmax_some _ _ _ E) as [F _]. assert (E' := L k ltac:(congruence)).
-      destruct (kc_disp c) eqn:D; try congruence; simpl; lia.
-    + destruct (kc_disp c); simpl; lia.
+  assert (K : kc_disp c = DGc \/ (kc_disp c = DManual /\ kc_replace c = false)).
+  { destruct (kc_disp c) eqn:D; [congruence | auto | right; auto]. }
+  destruct o; simpl; unfold mhas, d_gc, d_clear.
+  all: try (destruct (mfind k s) eqn:E; [assert (E' := L k ltac:(congruence))|]; simpl).
+  all: try (match goal with |- context [kmin _] => idtac end;
+            destruct (kmin s) as [[k0 v0]|] eqn:E;
+            [destruct (kmin_some _ _ _ E) as [F _]; assert (E' := L k0 ltac:(congruence))|]; simpl).
+  all: try (match goal with |- context [kmax _] => idtac end;
+            destruct (kmax s) as [[k0 v0]|] eqn:E;
+            [destruct (kmax_some _ _ _ E) as [F _]; assert (E' := L k0 ltac:(congruence))|]; simpl).
+  all: try (destruct allow; simpl).
+  all: destruct K as [D | [D R]]; rewrite D; try rewrite R; simpl; try destruct (kc_replace c); simpl; unfold item in *; lia.
 Qed.
 
 Lemma krun_account : forall c ops s, wf s ->
